@@ -53,6 +53,8 @@ try:
         kept += 1
     for bad in ("g13", "g15"):
         shutil.rmtree(os.path.join(out, bad), ignore_errors=True)   # inconsistent as written by the pinned release (see above)
+    # directory names of collections whose type names stress the snake-case conversion, as the pinned release names them
+    subprocess.run([binp, "names", "-out", os.path.join(out, "names.json"), "-work", w], check=True)
     print("golden corpus: %d directories kept of %d" % (kept, len(tests)))
     shutil.rmtree(w, ignore_errors=True)
 finally:
